@@ -62,6 +62,10 @@ func runC15(c *Ctx) {
 	}
 
 	ruleEnsureExact(c, pd, "C15.ensure")
+	ruleBufGrowByAppend(c, pd, "C15.grow")
+	ruleBufGrowByAppend(c, pp, "C15.grow")
+	ruleEveryElement(c, pd, "C15.every")
+	ruleEveryElement(c, pp, "C15.every")
 	// ---- C15.pairs
 	rule := "C15.pairs"
 	c.R.Rule(rule, "the codec methods (EncodeColumn / WriteColumn / DecodeColumn) that are declared in different files in the default and in the purego configuration are paired by (type, method): every variant method has its sibling (ColRawOf exists only in the default build and is exempt), and both configurations type-check")
@@ -672,4 +676,117 @@ func storesToBuf(fn *ssa.Function) []*ssa.Store {
 		}
 	}
 	return out
+}
+
+// ruleBufGrowByAppend (C14 / C15 / C01): encoders extend Buffer.Buf by append only.
+func ruleBufGrowByAppend(c *Ctx, p *core.Program, rule string) {
+	c.R.Rule(rule, "every value stored to Buffer.Buf in package proto is an append chain (or a truncation to length 0) rooted at the buffer: new bytes come from append - zeroed by make or explicitly given - never from re-slicing into spare capacity (slices.Grow(b.Buf, n)[:len+n], b.Buf[:len+n]), whose stale contents differ between a fresh buffer and the writer's reused staging buffer: an encoder that then stores only the non-zero values emits bytes of the previous flush cycle")
+	cfg := p.Cfg.Name
+	n := 0
+	for _, fn := range p.Funcs() {
+		if pkgOf(fn) == nil || pkgOf(fn).Path() != core.PkgProto || fn.Blocks == nil || strings.HasPrefix(fn.Name(), "verifFixture") {
+			continue
+		}
+		k := 0
+		for _, s := range storesToBuf(fn) {
+			n++
+			k++
+			key := sprintf("%s/buf-store#%d", core.FuncName(fn), k)
+			bad := resliceInChain(s.Val, 0, map[ssa.Value]bool{})
+			// a call that is not append (slices.Grow, slices.Clip ...) followed by a reslice is caught above;
+			// a bare call result other than append is not an append chain either
+			if bad == nil {
+				if cl, ok := s.Val.(*ssa.Call); ok {
+					if bi, okb := cl.Call.Value.(*ssa.Builtin); !okb || bi.Name() != "append" {
+						if f := core.CalleeFunc(cl); f != nil && f.Pkg() != nil && f.Pkg().Path() == "slices" {
+							c.R.Bad(rule, key, cfg, p.Pos(s.Pos()), "Buffer.Buf is replaced by the result of slices."+f.Name()+": not an append chain")
+							continue
+						}
+					}
+				}
+			}
+			if bad != nil {
+				c.R.Bad(rule, key, cfg, p.Pos(bad.Pos()), "the buffer is extended by re-slicing ("+bad.String()+") instead of append: bytes the encoder does not store keep whatever the reused staging buffer held there")
+			} else {
+				c.R.Ok(rule, key, cfg, p.Pos(s.Pos()), "append chain")
+			}
+		}
+	}
+	c.R.Count("stores to Buffer.Buf["+cfg+"]", n)
+	c.R.Floor(rule, cfg, n, 40)
+}
+
+// ruleEveryElement (C15 / C14): an encoder loop writes every element it visits.
+func ruleEveryElement(c *Ctx, p *core.Program, rule string) {
+	c.R.Rule(rule, "an encoder that fills the tail of Buffer.Buf element by element writes on every iteration: in every proto function that stores into Buffer.Buf inside a loop (binary Put* into a slice of Buf, an indexed store, copy), no path through the loop body returns to the loop header without such a write - a `skip zero values, the region is already zeroed` shortcut drops the sign of -0.0 in the pure-Go float encoders, and together with a non-zeroing grow leaves stale bytes")
+	cfg := p.Cfg.Name
+	n := 0
+	for _, fn := range p.Funcs() {
+		if pkgOf(fn) == nil || pkgOf(fn).Path() != core.PkgProto || fn.Blocks == nil || strings.HasPrefix(fn.Name(), "verifFixture") {
+			continue
+		}
+		fromBuf := func(v ssa.Value) bool {
+			return core.DependsOn(v, func(x ssa.Value) bool { return core.FieldOrigin(x, 0) == "Buffer.Buf" }, false)
+		}
+		writes := func(in ssa.Instruction) bool {
+			switch x := in.(type) {
+			case *ssa.Store:
+				if ia, ok := x.Addr.(*ssa.IndexAddr); ok && fromBuf(ia.X) {
+					return true
+				}
+			case *ssa.Call:
+				if bi, ok := x.Call.Value.(*ssa.Builtin); ok && bi.Name() == "copy" && fromBuf(x.Call.Args[0]) {
+					return true
+				}
+				f := core.CalleeFunc(x)
+				if f != nil && strings.HasPrefix(f.Name(), "Put") || f != nil && strings.HasPrefix(f.Name(), "binPut") {
+					for _, a := range x.Call.Args {
+						if _, isSl := a.Type().Underlying().(*types.Slice); isSl && fromBuf(a) {
+							return true
+						}
+					}
+				}
+			}
+			return false
+		}
+		seenHdr := map[*ssa.BasicBlock]bool{}
+		for _, b := range fn.Blocks {
+			for _, in := range b.Instrs {
+				if !writes(in) || !core.InLoop(in) {
+					continue
+				}
+				hdr := core.LoopHeader(in)
+				if hdr == nil || seenHdr[hdr] {
+					continue
+				}
+				seenHdr[hdr] = true
+				n++
+				key := sprintf("%s/loop@%d", core.FuncName(fn), hdr.Index)
+				// from each entry into the loop body (successors of the header that stay in the loop) back to the header
+				bad := false
+				for _, sb := range hdr.Succs {
+					if !hdr.Dominates(sb) || sb == hdr {
+						continue
+					}
+					// does sb lead back to the header at all (is it the body)?
+					if len(core.ReachAvoiding(core.Point{B: sb, I: -1}, func(x ssa.Instruction) bool { return x.Block() == hdr }, nil, nil)) == 0 {
+						continue
+					}
+					w := core.ReachAvoiding(core.Point{B: sb, I: -1}, func(x ssa.Instruction) bool { return x.Block() == hdr }, writes, nil)
+					if len(w) > 0 {
+						bad = true
+						c.R.Bad(rule, key, cfg, p.Pos(in.Pos()), "an iteration of the encoding loop can complete without writing its element: the bytes of that element are whatever the buffer held (zero for a fresh append - wrong for -0.0 - or stale data)", p.TrailString(w[0])...)
+						break
+					}
+				}
+				if !bad {
+					c.R.Ok(rule, key, cfg, p.Pos(in.Pos()), "every iteration writes")
+				}
+			}
+		}
+	}
+	c.R.Count("encoding loops["+cfg+"]", n)
+	if cfg == core.CfgPurego.Name {
+		c.R.Floor(rule, cfg, n, 20)
+	}
 }
